@@ -91,7 +91,45 @@ def collect(repo, prop):
     return sites
 
 
+ERROR_VALUE_BUILDERS = [
+    ("src/syscalls.rs", "impl From<Fd> for FrozenFd fn from"),
+    ("src/utils/fd.rs", "impl FdExt for Fd fn as_unsafe_path_unchecked"),
+    ("src/procfs.rs", "impl ProcfsBase fn into_path"),
+]
+INFALLIBLE_WRAPPERS = {"gettid", "geteuid", "getpid", "AT_FDCWD"}
+
+
+def scan_error_value_construction(repo):
+    """C10: every `syscalls::X(..)` wrapper builds a FrozenFd for its error value; FrozenFd::from calls
+    as_unsafe_path_unchecked, which calls ProcfsBase::into_path.  If one of these three calls an
+    error-constructing wrapper, a failing probe recurses without bound (finding D11).  Syntactic
+    obligation: their texts contain no call of a fallible `syscalls::` wrapper."""
+    import vxbuild
+    res = []
+    for f, sel in ERROR_VALUE_BUILDERS:
+        try:
+            r = vxbuild.run_vx({"file": os.path.join(repo, f), "selector": sel, "rules": [], "substs": []})
+        except Exception as e:  # lost anchor
+            res.append({"scan": "C10.error_value_construction", "status": "undecided",
+                        "what": "cannot locate %s in %s: %s" % (sel, f, e), "label": "C10.scan.lost_anchor"})
+            continue
+        text = strip_comments(r["orig"])
+        for m in re.finditer(r"\bsyscalls::(\w+)\s*\(", text):
+            if m.group(1) not in INFALLIBLE_WRAPPERS:
+                line = r["start_line"] + text[:m.start()].count("\n")
+                res.append({"scan": "C10.error_value_construction", "status": "violation",
+                            "label": "C10.frozenfd.error_value_construction_calls_no_fallible_wrapper",
+                            "function": sel, "site": {"file": f, "line": line, "text": "syscalls::%s(" % m.group(1)},
+                            "what": "%s (%s:%d) calls the error-constructing wrapper syscalls::%s while it is itself part of building every wrapper's error value (FrozenFd::from -> as_unsafe_path_unchecked -> into_path): unbounded recursion when that call fails" % (sel, f, line, m.group(1))})
+    if not res:
+        res.append({"scan": "C10.error_value_construction", "status": "ok", "label": "C10.scan.error_value_construction",
+                    "what": "FrozenFd::from / as_unsafe_path_unchecked / ProcfsBase::into_path call no fallible syscalls:: wrapper (syntactic; D11)"})
+    return res
+
+
 def run(prop, repo, idx):
+    if prop == "C10":
+        return scan_error_value_construction(repo)
     if prop not in PATTERNS:
         return []
     inv_path = os.path.join(VERIF, "scans", "inventory.json")
